@@ -233,7 +233,7 @@ def orders(files, tier):
     if tier == "thorough" and len(names) >= 3:
         perms = list(itertools.permutations(names))
         rng = random.Random(zlib.crc32("".join(files.values()).encode()))
-        return [names, names[::-1]] + [list(p) for p in rng.sample(perms, 2)]
+        return [names, list(rng.choice(perms))]          # ascending and one seeded permutation
     return [names, names[::-1]]
 
 
@@ -365,7 +365,7 @@ def run(tier, seed, ck: Check):
             h = zlib.crc32(json.dumps(c["mods"], sort_keys=True).encode())
             # thorough: every kind map and every placement for the cases the quick tier samples from, one (hashed) variant for the
             # larger ones - the full product would be some 10^9 runs
-            full = big and c["cost"] <= small[len(c["mods"]) - 1]
+            full = big and c["cost"] <= small[len(c["mods"]) - 1] and len(c["mods"]) - 1 <= 2
             c["kindmaps"] = ("K1", "K2", "K3") if full else (("K1", "K2", "K3")[h % 3],)
             c["styles"] = ALL_STYLES if full else (((h >> 2) % 2, ("program", "modproc", "hosted", "program-stubname")[(h >> 3) % 4]),)
         ck.coverage["cases_full_variants"] = sum(1 for c in cases if len(c["styles"]) > 1)
